@@ -439,6 +439,10 @@ def runNet (name fixed cap as bs : String) : String :=
     let (term, clean, out) := NetM.msumRun c b.toNat p.toNat a
     if !term then "fuel"
     else (if clean then "ok" else "deadlock") ++ " | " ++ (if out.isEmpty then "-" else ",".intercalate (out.map toString))
+  | "ema", some c, some a, some [p, mul] =>
+    let (term, clean, out) := NetM.emaRun c p.toNat mul a
+    if !term then "fuel"
+    else (if clean then "ok" else "deadlock") ++ " | " ++ (if out.isEmpty then "-" else ",".intercalate (out.map toString))
   | _, _, _, _ => "ERR bad-net"
 
 def handle (line : String) : String :=
